@@ -10,12 +10,12 @@ the path resolves, the inferred type set meets the declared type, a literal inde
 namespace Hpl
 
 /-- field or constant `name` of a message token -/
-def fieldOf (t : TyTok) (name : String) : Option TyTok :=
+def tokFieldOf (t : TyTok) (name : String) : Option TyTok :=
   match t with
   | .msg _ fs cs => (fs.find name).or (cs.find name)
   | _ => none
 
-def elemOf : TyTok → Option TyTok
+def tokElemOf : TyTok → Option TyTok
   | .arr _ sub _ => some sub
   | _ => none
 
@@ -23,8 +23,8 @@ def elemOf : TyTok → Option TyTok
 def denote (this : TyTok) (vars : VarTypes) : Expr → Option TyTok
   | .this _ => some this
   | .var _ x => lookupTok x vars
-  | .field _ m name => (denote this vars m).bind (fieldOf · name)
-  | .index _ a _ => (denote this vars a).bind elemOf
+  | .field _ m name => (denote this vars m).bind (tokFieldOf · name)
+  | .index _ a _ => (denote this vars a).bind tokElemOf
   | _ => none
 
 def isAccessor : Expr → Bool
